@@ -48,6 +48,54 @@ thread_local! {
 /// wall-clock limit for a single API call before it is reported as "too slow" (C12: "fails to terminate")
 pub const SLOW_MS: u128 = 20_000;
 
+// ---- hang watchdog: every thread publishes the start time, operation and case of the call it is executing ----
+pub struct Slot {
+    start_ms: std::sync::atomic::AtomicU64,
+    op: std::sync::Mutex<String>,
+    case: std::sync::Mutex<String>,
+}
+static SLOTS: std::sync::Mutex<Vec<std::sync::Arc<Slot>>> = std::sync::Mutex::new(Vec::new());
+static T0: std::sync::OnceLock<Instant> = std::sync::OnceLock::new();
+thread_local! {
+    static MY_SLOT: std::sync::Arc<Slot> = {
+        let s = std::sync::Arc::new(Slot { start_ms: std::sync::atomic::AtomicU64::new(0), op: std::sync::Mutex::new(String::new()), case: std::sync::Mutex::new(String::new()) });
+        SLOTS.lock().unwrap().push(s.clone());
+        s
+    };
+}
+fn now_ms() -> u64 {
+    T0.get_or_init(Instant::now).elapsed().as_millis() as u64 + 1
+}
+/// remember the case the current thread is working on (shown if one of its calls hangs)
+pub fn note_case(c: &serde_json::Value) {
+    if c.is_null() {
+        return;
+    }
+    MY_SLOT.with(|s| {
+        let mut g = s.case.lock().unwrap();
+        g.clear();
+        // keep it short: huge byte strings are summarised by the drivers already
+        let txt = c.to_string();
+        g.push_str(&txt[..txt.len().min(2000)]);
+    });
+}
+/// (operation, case, seconds) of the longest-running in-flight API call older than `limit_ms`, if any
+pub fn hung_call(limit_ms: u64) -> Option<(String, String, u64)> {
+    let now = now_ms();
+    let slots = SLOTS.lock().unwrap();
+    slots
+        .iter()
+        .filter_map(|s| {
+            let st = s.start_ms.load(std::sync::atomic::Ordering::Relaxed);
+            if st != 0 && now.saturating_sub(st) > limit_ms {
+                Some((s.op.lock().unwrap().clone(), s.case.lock().unwrap().clone(), (now - st) / 1000))
+            } else {
+                None
+            }
+        })
+        .max_by_key(|x| x.2)
+}
+
 pub fn rec_start() {
     REC.with(|r| *r.borrow_mut() = Some(vec![]));
 }
@@ -93,7 +141,17 @@ pub struct Api {
 
 fn monitored<T>(op: &str, f: impl FnOnce() -> R<T>) -> R<T> {
     let t0 = Instant::now();
+    MY_SLOT.with(|s| {
+        let mut g = s.op.lock().unwrap();
+        if g.as_str() != op {
+            g.clear();
+            g.push_str(op);
+        }
+        drop(g);
+        s.start_ms.store(now_ms(), std::sync::atomic::Ordering::Relaxed);
+    });
     let r = catch_unwind(AssertUnwindSafe(f));
+    MY_SLOT.with(|s| s.start_ms.store(0, std::sync::atomic::Ordering::Relaxed));
     let ms = t0.elapsed().as_millis();
     CNT.with(|c| {
         let mut c = c.borrow_mut();
